@@ -60,7 +60,7 @@ def install(eng):
     eng.enumerator("local-pool-scenarios", ["C11", "C12", "C13"], LOCAL, lambda seed, focus: enum_local.replay(None, None, None, seed))
     eng.enumerator("local-server-clients", ["C14"], LOCAL, lambda seed, focus: enum_local.replay_server(None, None, None, seed))
     # C08 for the local backend across a restart of the pool (F15): real pool twice, real clients
-    eng.enumerator("local-pool-restart", ["C08"], LOCAL + BACKEND, lambda seed, focus: enum_local.replay_restart(None, None, None, seed),
+    eng.enumerator("local-pool-restart", ["C08", "C07"], LOCAL + BACKEND, lambda seed, focus: enum_local.replay_restart(None, None, None, seed),
                    always=True)
     from replay import enum_ops
     OPS = [k for k in eng.contracts if k.startswith(("gwf.backends.slurm:", "gwf.backends.sge:", "gwf.backends.lsf:",
